@@ -96,6 +96,19 @@ class C08(Property):
                            'sub_linear': None, 'jac': None,
                            'partials': rng.choice([None, 'dense'])},
                    'sparse_scaling': rng.randrange(10 ** 6)}
+        # family: residual scaling only (res_ref, no ref/ref0) and sub-groups that approximate their
+        # own jacobian (semi-totals): the group-level linear operators must honour a scaling that
+        # only the residual vector carries
+        for _ in range(8 if tier == 'quick' else 200):
+            yield {'gen_seed': rng.randrange(10 ** 9),
+                   'opts': {'safe_indices': True, 'scaling': True, 'array_scaling': False,
+                            'implicit': False, 'cycles': False, 'n_comps': (4, 7)},
+                   'cfg': {'mode': rng.choice(['rev', 'rev', 'fwd']),
+                           'linear': rng.choice([None, 'runonce', 'direct']), 'nonlinear': None,
+                           'sub_linear': None, 'jac': None,
+                           'partials': rng.choice(['dense', 'cs']),
+                           'sub_approx': rng.choice(['cs', 'cs', None])},
+                   'resid_only': rng.randrange(10 ** 6)}
         for _ in range(n):
             cyc = rng.random() < 0.4
             cfg = {'mode': rng.choice(['fwd', 'rev']),
@@ -137,6 +150,15 @@ class C08(Property):
                         o['ref0'] = rat(Fraction(r2.randint(1, 6), 2))
                         o['ref'] = rat(unrat(o['ref0']) + r2.choice([Fraction(2), Fraction(-1), Fraction(7)]))
                         o['res_ref'] = rat(r2.choice([Fraction(1), Fraction(4)]))
+        if 'resid_only' in case:
+            r2 = random.Random(case['resid_only'])
+            for c in md['comps']:
+                for o in c['outs']:
+                    for key in ('ref', 'ref0', 'res_ref', 'via_solver_options'):
+                        o.pop(key, None)
+                    if c['kind'] != 'ivc' and r2.random() < 0.7:
+                        o['res_ref'] = rat(r2.choice([Fraction(2), Fraction(-3), Fraction(1, 2),
+                                                      Fraction(5)]))
         voi = gm.gen_voi(rng, md, units=False, scaling=False)
         return md, voi
 
@@ -197,6 +219,9 @@ class C08(Property):
         md, voi = self._md(case)
         if impl.get('error') == 'AnalysisError':
             return None     # a solver reported non-convergence: the property's premise is false
+        if case['cfg'].get('sub_approx') and 'this group uses approx_totals' in (impl.get('msg') or ''):
+            return None     # a design variable whose source lies inside an approximating group is
+            #                 rejected by OpenMDAO with a clear message: no model to compare
         if 'error' in impl:
             return {'what': 'setup/run_model/compute_totals raised %s' % impl['error'],
                     'msg': impl.get('msg')}
